@@ -37,6 +37,8 @@ import (
 	"encoding/json"
 	"errors"
 	"fmt"
+	"io"
+	"io/fs"
 	"os"
 	"os/exec"
 	"os/signal"
@@ -61,8 +63,8 @@ import (
 // ---------------------------------------------------------------- inputs
 
 type op struct {
-	K string `json:"k"`           // rewrite|rewritem|rewrite2|trunc|rename|k8s|link|delete|reload|dir|rmparent|overflow
-	M int    `json:"m,omitempty"` // rewrite2: the content written first (the final content C follows at once)
+	K string `json:"k"`           // rewrite|rewritem|rewrite2|trunc|rename|trename|k8s|link|linkto|delete|reload|dir|rmparent|overflow
+	M int    `json:"m,omitempty"` // rewrite2: the content written first (the final content C follows at once); linkto: which earlier directory
 	C int    `json:"c"`           // content id; -1 = identical to the current content
 	V int    `json:"v,omitempty"` // variant bits: 1 = keep the old directory / delete only the target; 2 = leave the old target alone
 	P int    `json:"p,omitempty"` // pause before the operation (racing mode): 0, 1 = 50us, 2 = 2ms
@@ -74,6 +76,7 @@ type input struct {
 	Layout  int    `json:"layout"`  // 0 regular file, 1 k8s with ..data, 2 k8s with ..dir, 3 symlink into another directory
 	Backend string `json:"backend"` // args | dials
 	Early   int    `json:"early,omitempty"` // args backend: number of leading ops applied between the initial Value() and Watch()
+	Dec     int    `json:"dec,omitempty"`   // 1: a decoder whose errors wrap sentinel errors (fs.ErrNotExist, ...)
 	Poll    bool   `json:"poll,omitempty"`  // racing: WithPollInterval(3ms); the history may remove and re-create the parent directory
 	Ops     []op   `json:"ops"`
 }
@@ -137,6 +140,36 @@ func contentID(b []byte) (int, bool) {
 		}
 	}
 	return 0, false
+}
+
+// ---------------------------------------------------------------- a decoder with wrapped sentinel errors
+
+// wrapDecoder behaves like the JSON decoder, but its errors wrap well-known
+// sentinel errors the way a decoder with an include / reference feature would
+// (a missing include is fs.ErrNotExist somewhere down the chain).  Whatever
+// the chain contains, a decoder error must be reported; only a missing config
+// file itself is tolerated silently.
+type wrapDecoder struct{ inner djson.Decoder }
+
+var sentinels = []error{
+	fs.ErrNotExist, os.ErrNotExist, &fs.PathError{Op: "open", Path: "included.json", Err: syscall.ENOENT},
+	fs.ErrPermission, io.ErrUnexpectedEOF, context.Canceled, &os.SyscallError{Syscall: "open", Err: syscall.ENOENT},
+}
+
+func (d *wrapDecoder) Decode(r io.Reader, t *dials.Type) (reflect.Value, error) {
+	b, err := io.ReadAll(r)
+	if err != nil {
+		return reflect.Value{}, err
+	}
+	v, err := d.inner.Decode(strings.NewReader(string(b)), t)
+	if err != nil {
+		k := len(b)
+		if id, ok := contentID(b); ok {
+			k = id
+		}
+		return v, fmt.Errorf("resolving includes of %d bytes: %w (%v)", len(b), sentinels[k%len(sentinels)], err)
+	}
+	return v, nil
 }
 
 // ---------------------------------------------------------------- event hook
@@ -350,6 +383,7 @@ type world struct {
 	nextIno            int
 	gone               []string // directories removed by the current operation
 	dead               []int    // config inodes destroyed by the current operation
+	odirs              []string // every "other" directory a symlink ever pointed into (paths are reused by linkto)
 	mid                int      // content written first by a "rewrite2" that took effect (-1 none)
 	entryChanged       bool     // the current operation created, replaced or removed the config path's own directory entry
 }
@@ -549,10 +583,37 @@ func (w *world) apply(o op, pause func()) {
 		w.newIno()
 		pause()
 		w.cleanup(oldShape, oldIno, oldTarget, oldDir, o.V)
-	case "link":
-		od := filepath.Join(w.root, fmt.Sprintf("o%d", w.next()))
-		must(os.Mkdir(od, 0o755))
-		tgt := filepath.Join(od, "file.json")
+	case "trename":
+		// atomic replacement of the TARGET file inside its own directory; the
+		// config path's entry (a symlink) is not touched
+		if !(w.shape == shK8s || w.shape == shLink || w.shape == shDangling) {
+			o.K = "rename"
+			w.apply(o, pause)
+			return
+		}
+		tmp := filepath.Join(filepath.Dir(w.target), fmt.Sprintf(".tmp-%d", w.next()))
+		writeFile(tmp, b)
+		pause()
+		must(os.Rename(tmp, w.target))
+		if w.shape == shDangling {
+			w.shape = w.danglingOf
+		} else {
+			w.dead = append(w.dead, oldIno)
+		}
+		w.cur = c
+		w.newIno()
+	case "link", "linkto":
+		od := ""
+		if o.K == "linkto" && len(w.odirs) > 0 {
+			// back into a directory an earlier symlink pointed into (possibly removed since)
+			od = w.odirs[o.M%len(w.odirs)]
+			must(os.MkdirAll(od, 0o755))
+		} else {
+			od = filepath.Join(w.root, fmt.Sprintf("o%d", w.next()))
+			must(os.Mkdir(od, 0o755))
+			w.odirs = append(w.odirs, od)
+		}
+		tgt := filepath.Join(od, fmt.Sprintf("file-%d.json", w.next()))
 		writeFile(tgt, b)
 		tmp := filepath.Join(w.d, fmt.Sprintf(".tmpl-%d", w.next()))
 		must(os.Symlink(tgt, tmp))
@@ -710,7 +771,11 @@ func setup(in input) *runner {
 	if in.Poll {
 		opts = append(opts, file.WithPollInterval(3*time.Millisecond))
 	}
-	ws, err := file.NewWatchingSource(w.cfg, &djson.Decoder{}, opts...)
+	var dec dials.Decoder = &djson.Decoder{}
+	if in.Dec == 1 {
+		dec = &wrapDecoder{}
+	}
+	ws, err := file.NewWatchingSource(w.cfg, dec, opts...)
 	must(err)
 	r.ws = ws
 	r.hs = &hookState{seen: map[string]chan struct{}{}}
@@ -934,7 +999,7 @@ func optN(v int) string {
 func opTerm(o op) string {
 	k := map[string]string{"rewrite": "ORewrite", "trunc": "OTrunc", "rename": "ORename", "k8s": "OK8s",
 		"link": "OLink", "delete": "ODelete", "reload": "OReload", "dir": "ODir", "rmparent": "ORmParent",
-		"rewritem": "ORewriteM", "rewrite2": "ORewrite2", "overflow": "OOverflow"}[o.K]
+		"rewritem": "ORewriteM", "rewrite2": "ORewrite2", "overflow": "OOverflow", "linkto": "OLink", "trename": "OTRename"}[o.K]
 	return k
 }
 
@@ -1287,7 +1352,12 @@ func genOps(r *coqfmt.Rng, maxOps int) []op {
 	nextC := 1
 	for i := range ops {
 		var o op
-		switch x := r.Intn(24); {
+		switch x := r.Intn(29); {
+		case x >= 24 && x < 27:
+			o.K = "trename"
+		case x >= 27:
+			o.K = "linkto"
+			o.M = r.Intn(8)
 		case x == 20:
 			o.K = "dir"
 		case x == 21 || x == 22:
@@ -1343,6 +1413,9 @@ func gen(r *coqfmt.Rng, n int, tier string) []json.RawMessage {
 	}
 	for i := 0; i < n; i++ {
 		in := input{Layout: r.Intn(4), Ops: genOps(r, maxOps)}
+		if r.Chance(1, 3) {
+			in.Dec = 1
+		}
 		if i%4 == 3 {
 			in.Mode, in.Backend = "w", "args"
 			for j := range in.Ops {
@@ -1447,6 +1520,21 @@ func corpus() []json.RawMessage {
 		{K: "rewrite", C: cidEmpty}, {K: "rewrite", C: cidBOM}, {K: "rewrite", C: 3}, {K: "rewrite2", M: cidEmpty, C: cidNUL}, {K: "k8s", C: cidWhitespace}, {K: "link", C: cidEmpty}}})
 	add(input{Mode: "r", Backend: "dials", Layout: 1, Ops: []op{{K: "k8s", C: 1}, {K: "rewrite", C: cidEmpty, P: 1}}})
 	add(input{Mode: "w", Backend: "args", Layout: 3, Ops: []op{{K: "rewrite", C: 1, H: true}, {K: "rewrite", C: cidEmpty}, {K: "rename", C: 2, H: true}, {K: "trunc", C: cidEmpty}}})
+	// back into an earlier target directory (A -> B -> A, A -> B -> C -> A), then the target replaced atomically several times
+	back := []op{{K: "link", C: 1, V: 2}, {K: "linkto", M: 0, C: 2, V: 2}, {K: "trename", C: 3}, {K: "trename", C: 4}, {K: "trename", C: 5}}
+	back3 := []op{{K: "link", C: 1, V: 2}, {K: "link", C: 2, V: 2}, {K: "linkto", M: 0, C: 3, V: 2}, {K: "trename", C: 4}, {K: "trename", C: 5}, {K: "trename", C: 104}, {K: "trename", C: 6}}
+	for _, m := range []string{"q", "w", "r"} {
+		add(input{Mode: m, Backend: "args", Layout: 3, Ops: back})
+		add(input{Mode: m, Backend: "args", Layout: 3, Ops: back3})
+		add(input{Mode: m, Backend: "args", Layout: 0, Dec: 1, Ops: back3})
+	}
+	add(input{Mode: "r", Backend: "dials", Layout: 3, Ops: back})
+	// a decoder whose errors wrap fs.ErrNotExist and friends: malformed content is an error, not a missing file
+	wrapped := []op{{K: "rename", C: 100}, {K: "rewrite", C: 101}, {K: "rename", C: 1}, {K: "rewrite", C: 102}, {K: "trunc", C: 106}, {K: "reload"}, {K: "rename", C: 2}, {K: "rewrite", C: cidEmpty}}
+	add(input{Mode: "q", Backend: "args", Layout: 0, Dec: 1, Ops: wrapped})
+	add(input{Mode: "q", Backend: "args", Layout: 3, Dec: 1, Ops: wrapped})
+	add(input{Mode: "r", Backend: "dials", Layout: 1, Dec: 1, Ops: wrapped})
+	add(input{Mode: "w", Backend: "args", Layout: 0, Dec: 1, Ops: wrapped})
 	// a change between the initial Value() and Watch()
 	add(input{Mode: "q", Backend: "args", Layout: 0, Early: 1, Ops: []op{{K: "rename", C: 3}, {K: "rewrite", C: 4}}})
 	add(input{Mode: "q", Backend: "args", Layout: 3, Early: 2, Ops: []op{{K: "rewrite", C: 3}, {K: "k8s", C: 4}, {K: "rename", C: 5}}})
@@ -1504,8 +1592,8 @@ func main() {
 	driver.Main(driver.Engine{
 		Prop: "C17", CoqImport: "Dials.Check.C17Check", CoqRun: "run_cases",
 		Rule: "histories of 1..12 (thorough 24) operations over {in-place rewrite, truncate+write, atomic rename-over, kubernetes ..data/..dir swap (old directory removed or kept), " +
-			"symlink into another directory, delete (path or target only), directory in place of the file, explicit reload} x content {fresh valid, identical bytes, earlier valid, malformed incl. the empty file, blanks only, a lone BOM, a single NUL} " +
-			"on 4 initial layouts; half of the cases quiescent-step (compared with the model), a quarter window mode (the loop held inside a pass while the next operation is applied), a quarter racing with pauses {0,50us,2ms}, a fifth of them with the parent directory " +
+			"symlink into another (fresh or EARLIER) directory, atomic replacement of the symlink's target, delete (path or target only), directory in place of the file, explicit reload} x content {fresh valid, identical bytes, earlier valid, malformed incl. the empty file, blanks only, a lone BOM, a single NUL} " +
+			"on 4 initial layouts, a third of the cases with a decoder whose errors wrap fs.ErrNotExist / ErrPermission / ENOENT path errors / ...; half of the cases quiescent-step (compared with the model), a quarter window mode (the loop held inside a pass while the next operation is applied), a quarter racing with pauses {0,50us,2ms}, a fifth of them with the parent directory " +
 			"removed and re-created (poll mode or a final explicit reload), some in poll mode; window cases are non-trivial with >=1 hold that took effect and >=2 operation kinds; " +
 			"non-trivial: >=3 distinct operation kinds and >=2 changes of the file's content; distinct = distinct JSON inputs",
 		Gen: gen, Run: run, Corpus: corpus(),
